@@ -16,6 +16,13 @@ class MapView:
         return f"<view {self.kind} of {self.coll!r}>"
 
 
+class DatetimeV:
+    """datetime.utcfromtimestamp(t): only .time() is modelled (seconds of day = t mod 86400, assumed)"""
+
+    def __init__(self, epoch):
+        self.epoch = epoch
+
+
 class SuccessV:
     def __init__(self, val):
         self.val = val
@@ -239,7 +246,7 @@ def call_builtin(ex, name, args, kw, st, where, env):
         yield Opaque("asdict"), st
         return
     if name in ("reduce", "functools.reduce", "ft.reduce"):
-        yield from reduce_(ex, args, st, where)
+        yield from reduce_(ex, args, st, where, env)
         return
     if name in ("uuid4", "uuid.uuid4"):
         yield fresh(AbstractTy("UUID"), "uuid"), st
@@ -258,6 +265,10 @@ def call_builtin(ex, name, args, kw, st, where, env):
         return
     if name in ("map", "filter", "zip"):
         yield from mapfilterzip(ex, name, args, st, where)
+        return
+    if name.endswith("utcfromtimestamp"):
+        ex.iface_used.add("datetime.utcfromtimestamp(t).time() == t mod 86400")
+        yield DatetimeV(args[0]), st
         return
     if name in LIB_UF:
         ex.iface_used.add(name)
@@ -324,17 +335,13 @@ def hasattr_(ex, v, name):
 
 
 # ------------------------------------------------------------------ folds / sorting
-def reduce_(ex, args, st, where):
+def reduce_(ex, args, st, where, env=None):
     f, xs = args[0], args[1]
     init = args[2] if len(args) > 2 else None
     items = ex.iter_items(xs, st)
     if items is None:
-        key = (ex.cur_key, "reduce", where)
-        spec = ex.loop_specs.get(key) or ex.loop_specs.get((ex.cur_key, "reduce", None))
-        if spec is not None:
-            yield from spec(ex, f, xs, init, st, where)
-            return
-        raise PyvcUnsupported(f"reduce over symbolic sequence at line {where} needs a fold contract")
+        yield from fold_contract(ex, f, xs, init, st, where, env)
+        return
     if init is None:
         if not items:
             yield Raised(ExcVal("TypeError"), where), st
@@ -353,22 +360,117 @@ def reduce_(ex, args, st, where):
     yield from go(0, init, st)
 
 
+def call_ordinal(ex, where, names):
+    """ordinal of the call at line `where` among the calls to `names` in the function under verification"""
+    fn, _, _ = ex.repo.func(ex.cur_key)
+    calls = sorted({(c.lineno, c.col_offset) for c in ast.walk(fn) if isinstance(c, ast.Call)
+                    and ((isinstance(c.func, ast.Attribute) and c.func.attr in names) or (isinstance(c.func, ast.Name) and c.func.id in names))})
+    for k, (ln, _) in enumerate(calls):
+        if ln == where:
+            return k
+    # multi-line calls: the Call node's lineno is the first line; `where` is that too
+    return None
+
+
+def fold_contract(ex, f, xs, init, st, where, env=None):
+    """functools.reduce over a symbolic sequence with a sidecar invariant Inv(acc, i, xs, env):
+    (1) Inv(init, 0)  (2) Inv(acc, i), 0<=i<len, acc' = f(acc, xs[i]) => Inv(acc', i+1)  (3) result: Inv(r, len)"""
+    from .exec import Obligation
+    from .spec import fresh_value, normalize
+    if isinstance(xs, MapView) or (isinstance(xs, Sym) and isinstance(xs.ty, (SetTy, MapTy))):
+        for u, st2 in ex.enumerate_unordered(xs, st, where):
+            yield from fold_contract(ex, f, u, init, st2, where, env)
+        return
+    if not (isinstance(xs, Sym) and isinstance(xs.ty, SeqTy)):
+        raise PyvcUnsupported(f"reduce over {xs!r}")
+    ordinal = call_ordinal(ex, where, ("reduce",))
+    spec = ex.loop_specs.get((ex.cur_key, "reduce", ordinal))
+    if spec is None:
+        raise PyvcUnsupported(f"reduce #{ordinal} over a symbolic sequence at line {where} of {ex.cur_key} needs a fold contract")
+    inv0, props = spec["invariant"], spec.get("props", ())
+    from .spec import NS as _NS
+    if inv0.__code__.co_argcount == 4:
+        inv = lambda acc, i, xs_: inv0(acc, i, xs_, _NS({k_: v_ for k_, v_ in (env or {}).items() if not k_.startswith("__")}))
+    else:
+        inv = inv0
+    acc_ty = spec.get("acc_type")
+    if init is None:
+        raise PyvcUnsupported("reduce without initial value over a symbolic sequence")
+    acc0 = normalize(init, acc_ty) if acc_ty is not None else init
+    n = Sym(IntT, z3.Length(xs.e))
+    ex.obligations.append(Obligation(f"{ex.cur_key}.reduce{ordinal}.invariant_on_entry", "loop-inv", list(st.hyps),
+                                     z3_bool(inv(acc0, 0, xs)), {"props": props}))
+    aty = acc_ty or ty_of(acc0)
+    if aty is None:
+        raise PyvcUnsupported("fold accumulator without a symbolic type (give acc_type)")
+    acc = fresh_value(aty, "fold_acc")
+    i = fresh(IntT, "fold_i")
+    st_i = st.assume(inv(acc, i, xs), i >= 0, i < n)
+    for v, st2 in ex.call_value(f, [acc, Sym(xs.ty.elem, xs.e[i.e])], {}, st_i, where):
+        if isinstance(v, Raised):
+            yield v, st2
+            continue
+        v2 = normalize(v, acc_ty) if acc_ty is not None else v
+        ex.obligations.append(Obligation(f"{ex.cur_key}.reduce{ordinal}.invariant_preserved", "loop-inv", list(st2.hyps),
+                                         z3_bool(inv(v2, i + 1, xs)), {"props": props}))
+    res = fresh_value(aty, "fold_result")
+    yield res, st.assume(inv(res, n, xs))
+
+
 def sorted_(ex, args, kw, st, where):
     xs = args[0]
     key = kw.get("key")
     rev = kw.get("reverse", False)
+    if rev is not False:
+        raise PyvcUnsupported("sorted(reverse=...)")
     items = ex.iter_items(xs, st)
     if items is not None and key is None and all(isinstance(x, (int, float, str)) for x in items):
-        yield sorted(items, reverse=bool(rev)), st
+        yield sorted(items), st
         return
     if items is not None and len(items) <= 1:
         yield list(items), st
         return
-    spec = ex.loop_specs.get((ex.cur_key, "sorted", where)) or ex.loop_specs.get(("*", "sorted", None))
-    if spec is not None:
-        yield from spec(ex, xs, key, rev, st, where)
-        return
-    raise PyvcUnsupported(f"sorted over symbolic collection at line {where}")
+    if items is not None:
+        t = ty_of(list(items))
+        if not isinstance(t, SeqTy):
+            raise PyvcUnsupported("sorted over a heterogeneous literal")
+        xs = Sym(t, coerce(list(items), t))
+    # base sequence u: the elements in some (arbitrary) order
+    if isinstance(xs, Sym) and isinstance(xs.ty, SeqTy):
+        bases = [(xs, st, False)]
+    else:
+        bases = [(u, st2, True) for u, st2 in ex.enumerate_unordered(xs, st, where)]
+        # the arbitrary order is consumed by a sort: the site is order-independent iff the key is injective (C01)
+        if ex.unordered_sites:
+            ex.unordered_sites[-1] = ex.unordered_sites[-1] + ("sorted", where)
+    for u, st_u, distinct in bases:
+        et = u.ty.elem
+        n = z3.Length(u.e)
+        r = z3.Const(fresh_name("sorted"), u.ty.sort)
+        i, j = z3.Int(fresh_name("si")), z3.Int(fresh_name("sj"))
+        p = z3.Function(fresh_name("perm"), z3.IntSort(), z3.IntSort())
+        q = z3.Function(fresh_name("perm_inv"), z3.IntSort(), z3.IntSort())
+        facts = [z3.Length(r) == n,
+                 z3.ForAll([i], z3.Implies(z3.And(i >= 0, i < n), z3.And(p(i) >= 0, p(i) < n, r[i] == u.e[p(i)], q(p(i)) == i))),
+                 z3.ForAll([j], z3.Implies(z3.And(j >= 0, j < n), z3.And(q(j) >= 0, q(j) < n, u.e[j] == r[q(j)], p(q(j)) == j)))]
+        # ordering by key: for i < j, not key(r[j]) < key(r[i])
+        ri, rj = Sym(et, r[i]), Sym(et, r[j])
+        st_k = st_u.assume(i >= 0, i < j, j < n)
+        if key is None:
+            ki, kj = ri, rj
+        else:
+            outs_i = [o for o in ex.call_value(key, [ri], {}, st_k, where)]
+            outs_j = [o for o in ex.call_value(key, [rj], {}, st_k, where)]
+            if len(outs_i) != 1 or len(outs_j) != 1 or isinstance(outs_i[0][0], Raised) or isinstance(outs_j[0][0], Raised):
+                raise PyvcUnsupported("sort key that forks or raises")
+            if len(outs_i[0][1].pc) != len(st_k.pc) or len(outs_j[0][1].pc) != len(st_k.pc):
+                raise PyvcUnsupported("sort key that adds path constraints")
+            ki, kj = outs_i[0][0], outs_j[0][0]
+        lt = v_cmp("<", kj, ki)
+        facts.append(z3.ForAll([i, j], z3.Implies(z3.And(i >= 0, i < j, j < n), z3.Not(z3_bool(lt)))))
+        ex.sort_sites.append({"function": ex.cur_key, "line": where, "key_i": ki, "key_j": kj, "i": i, "j": j,
+                              "r": Sym(u.ty, r), "from_unordered": distinct})
+        yield Sym(u.ty, r), st_u.assume(*facts)
 
 
 def mapfilterzip(ex, name, args, st, where):
@@ -447,6 +549,17 @@ def call_method(ex, recv, name, args, kw, st, where):
     if isinstance(recv, str):
         yield Opaque("strmethod"), st
         return
+    if isinstance(recv, DatetimeV):
+        if name == "time":
+            t = recv.epoch
+            if isinstance(t, Sym):
+                if not ex.entails(st, v_cmp(">=", t, 0)):
+                    raise PyvcUnsupported("utcfromtimestamp of a possibly negative time")
+                yield Sym(IntT, coerce(t, IntT) % 86400), st
+            else:
+                yield int(t) % 86400, st
+            return
+        raise PyvcUnsupported(f"datetime method {name}")
     if isinstance(recv, SuccessV):
         if name == "unwrap":
             yield recv.val, st
